@@ -556,15 +556,20 @@ def cli_exit(task):
     import subprocess
 
     c = task["case"]
-    rng = bamgen.seeded("c06exit", task["seed"], c["v"], c["f"], c["a"])
-    wd = os.path.join(task["wd"], "exit-%s%s%s" % (c["v"], c["f"], c["a"]))
+    rng = bamgen.seeded("c06exit", task["seed"], c["v"], c.get("v2", "none"), c["f"], c["a"])
+    wd = os.path.join(task["wd"], "exit-%s%s%s%s" % (c["v"], c.get("v2", "none"), c["f"], c["a"]))
     shutil.rmtree(wd, ignore_errors=True)
     os.makedirs(wd)
     g = bamgen.Geometry.build(rng, [c["f"], "G"])
     contigs = {g.contig: len(g.ref)}
     fasta = bamgen.write_fasta(os.path.join(wd, "ref.fa"), {g.contig: g.ref})
     alt = "T"
-    vcf = bamgen.write_snv_vcf(os.path.join(wd, "snv.vcf"), contigs, [(g.contig, g.sites[0], c["v"], (alt,)), (g.contig, g.sites[1], "G", ("A",))])
+    rows = [(g.contig, g.sites[0], c["v"], (alt,))]
+    if c.get("v2", "none") != "none":
+        # the same position listed a second time with another ALT (and possibly another REF)
+        rows.append((g.contig, g.sites[0], c["v2"], ("G",)))
+    rows.append((g.contig, g.sites[1], "G", ("A",)))
+    vcf = bamgen.write_snv_vcf(os.path.join(wd, "snv.vcf"), contigs, rows)
     bed = bamgen.write_bed(os.path.join(wd, "loci.bed"), [(g.contig, g.start, g.stop, "L1")])
     alns = []
     for i in range(3):
